@@ -32,6 +32,7 @@ type Solver struct {
 	Errors   int
 	Time     time.Duration
 	MaxQuery time.Duration
+	LastQuery time.Duration
 	log      io.Writer
 	dead     bool
 }
@@ -230,6 +231,7 @@ func (s *Solver) Check() string {
 		break
 	}
 	d := time.Since(t0)
+	s.LastQuery = d
 	s.Time += d
 	if d > s.MaxQuery {
 		s.MaxQuery = d
